@@ -3,7 +3,8 @@
 EXTENDS SshAudit, Json, IOUtils
 
 Base == [hk |-> <<>>, kexOK |-> FALSE, kexGex |-> FALSE, gex |-> {}, dh |-> FALSE,
-         moduli |-> {}, style |-> "strict", openssh |-> FALSE, skipRate |-> TRUE]
+         moduli |-> {}, style |-> "strict", openssh |-> FALSE, skipRate |-> TRUE,
+         role |-> "server", proto |-> "2", try |-> "12", cliTimeout |-> FALSE]
 GexSha256 == "diffie-hellman-group-exchange-sha256"
 GexSha1 == "diffie-hellman-group-exchange-sha1"
 
@@ -25,8 +26,16 @@ GexFaultServers ==
 RateServers == {[Base EXCEPT !.dh = d, !.skipRate = sk] : d \in BOOLEAN, sk \in BOOLEAN}
 NoServers == {}
 Combined == {[hk |-> <<"rsa-sha2-512", "ssh-ed25519">>, kexOK |-> TRUE, kexGex |-> FALSE, gex |-> {GexSha256}, dh |-> TRUE,
-              moduli |-> {2048, 4096}, style |-> "openssh", openssh |-> TRUE, skipRate |-> FALSE]}
-FaultFamily == HkFamilyServers \cup GexFaultServers \cup RateServers \cup Combined
+              moduli |-> {2048, 4096}, style |-> "openssh", openssh |-> TRUE, skipRate |-> FALSE,
+              role |-> "server", proto |-> "2", try |-> "12", cliTimeout |-> FALSE]}
+\* SSH-1 peers under every protocol selection, peers refusing both versions, and client audits (with and without -t)
+Full == [hk |-> <<"rsa-sha2-512", "ssh-ed25519">>, kexOK |-> TRUE, kexGex |-> FALSE, gex |-> {GexSha256}, dh |-> TRUE,
+         moduli |-> {2048}, style |-> "strict", openssh |-> FALSE, skipRate |-> FALSE,
+         role |-> "server", proto |-> "2", try |-> "12", cliTimeout |-> FALSE]
+ProtoServers == {[b EXCEPT !.proto = p, !.try = t] : b \in {Base, Full}, p \in {"1", "2", "none"}, t \in {"12", "1", "2"}}
+                  \ {x \in {[b EXCEPT !.proto = "2", !.try = "1"] : b \in {Base, Full}} : TRUE}      \* (-1 against an SSH-2 peer: not modelled)
+ClientAudits == {[b EXCEPT !.role = "client", !.cliTimeout = ct] : b \in {Base, Full}, ct \in BOOLEAN}
+FaultFamily == HkFamilyServers \cup GexFaultServers \cup RateServers \cup Combined \cup ProtoServers \cup ClientAudits
 
 \* -g (granular group-exchange test; beyond the listed properties, bound in C12): the distinct group sizes a server hands out
 \* for a list of (min, pref, max) requests, in the order they are first seen
